@@ -1,37 +1,38 @@
 #!/bin/bash
 # usage: confirm_seed.sh <PROP> <x>     (seed delivered by a sub-agent in /tmp/seed/<PROP>/_seed/<x>)
 # Confirms in a fresh scratch worktree of /repo HEAD: demo passes unpatched; with the patch the project
-# builds, the unedited suite passes and the demo fails. Writes /tmp/confirm/<PROP>-<x>.result
+# builds, the unedited suite passes and the demo fails. Writes $CONF/<PROP>-<x>.result
 set -u
 P="$1"; X="$2"
 export GOPROXY=off GOTOOLCHAIN=local GOSUMDB=off
 unset GOFLAGS
-SRC=/tmp/seed/$P/_seed/$X
-WT=/tmp/seed/$P   # demos have the worktree path baked in by the agent in places; reuse the agent's worktree but reset it to /repo HEAD
-RES=/tmp/confirm/$P-$X.result
-mkdir -p /tmp/confirm
+SEEDROOT=${SEEDROOT:-/tmp/seed}; CONF=${CONF:-/tmp/confirm}
+SRC=$SEEDROOT/$P/_seed/$X
+WT=$SEEDROOT/$P   # demos have the worktree path baked in by the agent in places; reuse the agent's worktree but reset it to /repo HEAD
+RES=$CONF/$P-$X.result
+mkdir -p $CONF
 cd "$WT" || exit 2
 git checkout -q -- . 2>/dev/null
 git checkout -q --detach "$(git -C /repo rev-parse HEAD)" || { echo "cannot move worktree to HEAD" > "$RES"; exit 2; }
 {
 echo "seed $P/$X at repo HEAD $(git rev-parse --short HEAD)"
 echo "--- demo on unpatched tree"
-timeout 900 bash "$SRC/demo.sh" > /tmp/confirm/$P-$X.demo0.log 2>&1; d0=$?
+timeout 900 bash "$SRC/demo.sh" > $CONF/$P-$X.demo0.log 2>&1; d0=$?
 echo "demo_unpatched_rc=$d0"
 git checkout -q -- . ; git status --porcelain | grep -v '^??' 
 echo "--- apply patch"
 if git apply "$SRC/patch.diff" 2>/dev/null; then echo "apply=clean"; elif git apply --3way "$SRC/patch.diff" 2>/dev/null; then git reset -q; echo "apply=3way"; else echo "apply=FAILED"; fi
 git diff --stat | tail -3
 echo "--- build"
-go build ./... > /tmp/confirm/$P-$X.build.log 2>&1; b=$?; echo "build_rc=$b"
+go build ./... > $CONF/$P-$X.build.log 2>&1; b=$?; echo "build_rc=$b"
 echo "--- suite"
-( go test -vet=off -count=1 -timeout 10m ./... 2>&1 | grep -v 'no test files' ; cd tests && go test -vet=off -count=1 -timeout 10m ./... 2>&1 | grep -v 'no test files' ) > /tmp/confirm/$P-$X.suite.log 2>&1
-if grep -qE '^(FAIL|---|panic)' /tmp/confirm/$P-$X.suite.log || ! grep -q '^ok' /tmp/confirm/$P-$X.suite.log; then echo "suite=FAIL"; else echo "suite=pass"; fi
+( go test -vet=off -count=1 -timeout 10m ./... 2>&1 | grep -v 'no test files' ; cd tests && go test -vet=off -count=1 -timeout 10m ./... 2>&1 | grep -v 'no test files' ) > $CONF/$P-$X.suite.log 2>&1
+if grep -qE '^(FAIL|---|panic)' $CONF/$P-$X.suite.log || ! grep -q '^ok' $CONF/$P-$X.suite.log; then echo "suite=FAIL"; else echo "suite=pass"; fi
 git checkout -q -- go.work.sum 2>/dev/null
 echo "--- demo on patched tree"
-timeout 900 bash "$SRC/demo.sh" > /tmp/confirm/$P-$X.demo1.log 2>&1; d1=$?
+timeout 900 bash "$SRC/demo.sh" > $CONF/$P-$X.demo1.log 2>&1; d1=$?
 echo "demo_patched_rc=$d1"
-tail -3 /tmp/confirm/$P-$X.demo1.log | cut -c1-300
+tail -3 $CONF/$P-$X.demo1.log | cut -c1-300
 git checkout -q -- . 
 git status --porcelain | grep -v '^?? _seed' 
 if [ $d0 -eq 0 ] && [ $b -eq 0 ] && [ $d1 -ne 0 ]; then echo "VERDICT=confirmed"; else echo "VERDICT=rejected"; fi
